@@ -87,7 +87,10 @@ Keeps(a, b) ==
 
 LdJudge(ln) ==
     LET d0 == Denote(ln.stmts)
-        f0 == FacesPos(d0.groups) IN
+        f0 == FacesPos(d0.groups)
+        \* the saved text is denoted once (d2 is only looked at when there is a saved text)
+        d2 == Denote(ln.stmts2)
+        saved == ln.werr = "" /\ d2.ok IN
     IF ln.stmts # ln.gen THEN [bad |-> {"Harness.Render"}, why |-> {}, ex |-> {}]
     ELSE IF ~d0.ok THEN [bad |-> {"Harness.ValidInput"}, why |-> {d0.why}, ex |-> {}]
     ELSE IF ln.rerr # "" THEN [bad |-> {"C05.LoadOk"}, why |-> {ln.rerr}, ex |-> {"C05.LoadOk"}]
@@ -95,25 +98,24 @@ LdJudge(ln) ==
              ld == (IF Surplus(f0, f1) # {} THEN {"C05.LoadFacesLost"} ELSE {})
                    \cup (IF Surplus(f1, f0) # {} THEN {"C05.LoadFacesInvented"} ELSE {})
              sv == IF ln.werr # "" THEN [bad |-> {"C05.SaveOk"}, why |-> {ln.werr}]
-                   ELSE LET d2 == Denote(ln.stmts2) IN
-                        IF ~d2.ok THEN [bad |-> {"C05.SaveValid"}, why |-> {d2.why}]
-                        ELSE LET f2 == FacesPos(d2.groups) IN
-                             [bad |-> (IF Surplus(f0, f2) # {} THEN {"C05.SaveFacesLost"} ELSE {})
-                                      \cup (IF Surplus(f2, f0) # {} THEN {"C05.SaveFacesInvented"} ELSE {}),
-                              why |-> {}]
+                   ELSE IF ~d2.ok THEN [bad |-> {"C05.SaveValid"}, why |-> {d2.why}]
+                   ELSE LET f2 == FacesPos(d2.groups) IN
+                        [bad |-> (IF Surplus(f0, f2) # {} THEN {"C05.SaveFacesLost"} ELSE {})
+                                 \cup (IF Surplus(f2, f0) # {} THEN {"C05.SaveFacesInvented"} ELSE {}),
+                         why |-> {}]
              \* beyond the statement (reported as Aux.*, never a C05 verdict): faces stay in file order and
              \* every uv / normal a corner HAS in the text is kept by the load and by the save
              aux == (IF \A i \in DOMAIN ln.rd : MeshOk(ln.rd[i])
                      THEN Bad2("Aux.LoadCorners", Keeps(FacesFull(d0.groups), LoadedFull(ln.rd)))
                      ELSE {"Aux.LoadCorners"})
-                    \cup (IF ln.werr = "" /\ Denote(ln.stmts2).ok
-                          THEN Bad2("Aux.SaveCorners", Keeps(FacesFull(d0.groups), FacesFull(Denote(ln.stmts2).groups)))
+                    \cup (IF saved
+                          THEN Bad2("Aux.SaveCorners", Keeps(FacesFull(d0.groups), FacesFull(d2.groups)))
                           ELSE {})
          IN [bad |-> ld \cup sv.bad \cup aux, why |-> sv.why,
              ex |-> IF f0 = <<>> THEN {"C05.LoadOk", "C05.SaveOk"}
                     ELSE {"C05.LoadOk", "C05.LoadFacesLost", "C05.LoadFacesInvented", "C05.SaveOk"}
                          \cup (IF ln.werr = "" THEN {"C05.SaveValid"} ELSE {})
-                         \cup (IF ln.werr = "" /\ Denote(ln.stmts2).ok THEN {"C05.SaveFacesLost", "C05.SaveFacesInvented"} ELSE {})]
+                         \cup (IF saved THEN {"C05.SaveFacesLost", "C05.SaveFacesInvented"} ELSE {})]
 
 Judge(ln) == IF ln.k = "wr" THEN WrJudge(ln) ELSE LdJudge(ln)
 
@@ -126,12 +128,13 @@ Bump(cnt, names) == [p \in (DOMAIN cnt) \cup names |->
 
 Init == l = 1 /\ ex = [p \in {"lines"} |-> 0]
 
+\* j, lk and ex1 are bound by \E over singleton sets: TLC evaluates the set once and binds the VALUE
+\* (a LET definition is re-evaluated at every mention inside an action, which multiplied the judge's
+\* work on long lines)
 Line ==
     /\ l <= Len(Trace)
-    /\ LET ln == Trace[l]
-           j == Judge(ln)
-           lk == LeakCount(ln)
-           ex1 == Bump(Bump(ex, j.ex), {"lines"} \cup (IF lk > 0 THEN {"strictLeak"} ELSE {})) IN
+    /\ \E j \in {Judge(Trace[l])} : \E lk \in {LeakCount(Trace[l])} :
+       \E ex1 \in {Bump(Bump(ex, j.ex), {"lines"} \cup (IF lk > 0 THEN {"strictLeak"} ELSE {}))} :
        /\ IF j.bad = {} THEN TRUE ELSE PrintT(ToJson([l |-> l, bad |-> j.bad, why |-> j.why]))
        /\ IF l = Len(Trace) THEN PrintT(ToJson([ex |-> ex1])) ELSE TRUE
        /\ ex' = ex1
